@@ -151,3 +151,78 @@ def rounding_budget_ok(v: Variable, double_bound=Fraction(1, 10**11), single_bou
     budget = n64 * 2 * u64 * (1 + 2 * u64) + n32 * 2 * u32 * (1 + 2 * u32)
     bound = single_bound if v.dtype.name == 'float32' else double_bound
     return budget, bound
+
+
+# --------------------------------------------------------------------------- float32 range of materialised values
+UNIT_GRID = {
+    'energy': {'ueV': Fraction(1602176634, 10**34), 'meV': Fraction(1602176634, 10**31), 'eV': Fraction(1602176634, 10**28), 'J': Fraction(1)},
+    'time': {'ns': Fraction(1, 10**9), 'us': Fraction(1, 10**6), 'ms': Fraction(1, 10**3), 's': Fraction(1)},
+    'length': {'angstrom': Fraction(1, 10**10), 'nm': Fraction(1, 10**9), 'um': Fraction(1, 10**6), 'mm': Fraction(1, 10**3), 'cm': Fraction(1, 100),
+               'm': Fraction(1), 'km': Fraction(1000)},
+    'wavelength': {'angstrom': Fraction(1, 10**10), 'nm': Fraction(1, 10**9), 'm': Fraction(1)},
+    'invlength': {'1/angstrom': Fraction(10**10), '1/nm': Fraction(10**9), '1/m': Fraction(1)},
+}
+PHYS_CONSTS = {'m_neutron': Fraction(167492749804, 10**38), 'h_planck': Fraction(662607015, 10**42)}
+F32_TINY = Fraction(1, 2**126)   # smallest normal single-precision number
+F32_MAX = Fraction(2**128 - 2**104)
+
+
+def f32_range_obligations(tag, terms, sigmas, ranges, timeout_ms=20000):
+    """Every value the code materialises in single precision from a wider intermediate (logged by the shim's astype) has to be
+    zero or a NORMAL float32 number for every unit choice of the quantifier grid and every input in its declared range;
+    a subnormal / flushed-to-zero constant silently changes the result.
+
+    sigmas: {atom name of a symbolic unit scale: kind in UNIT_GRID};  ranges: {atom name of an input: (lo_SI, hi_SI, sigma atom name)}.
+    Terms with atoms outside (sigmas, ranges, physical constants) are skipped (listed in the returned notes).
+    Returns (obligations, violated [(term repr, model)], notes)."""
+    U = T.universe()
+    obs, bad, notes, seen = [], [], [], set()
+    for x in terms:
+        x = R.lift(x)
+        if x.special is not None or x.t.is_const():
+            continue
+        k = x.t.key()
+        if k in seen:
+            continue
+        seen.add(k)
+        names = {U.atoms[i].name for i in x.t.atoms()}
+        ass = []
+        unknown = names - set(sigmas) - set(ranges) - set(PHYS_CONSTS)
+        for i in x.t.atoms():
+            a_ = U.atoms[i]
+            if a_.name not in unknown:
+                continue
+            av_ = R(T.Rat(T.atom_poly(a_)))
+            if a_.name == 'pi':
+                ass += [av_ > Fraction(314159, 100000), av_ < Fraction(314160, 100000)]
+                unknown.discard(a_.name)
+            elif a_.kind == 'fn' and a_.fn == 'sin':
+                # sin(theta) of a scattering angle 2 theta in [0.01, 3.1] rad
+                ass += [av_ >= Fraction(1, 250), av_ <= 1]
+                unknown.discard(a_.name)
+        if unknown:
+            notes.append(f'{tag}: float32 value with atoms {sorted(unknown)} not range-checked')
+            continue
+        for nm in names & set(PHYS_CONSTS):
+            ass.append(R(T.var(nm, sign='+')) == PHYS_CONSTS[nm])
+        need_sig = (names & set(sigmas)) | {ranges[a][2] for a in names & set(ranges) if ranges[a][2] is not None}
+        for nm in need_sig:
+            sv = R(T.var(nm, sign='+'))
+            ass.append(C.any_of([sv == v for v in UNIT_GRID[sigmas[nm]].values()]))
+        for a in names & set(ranges):
+            lo, hi, sg = ranges[a]
+            av = R(T.var(a, sign='+'))
+            sv = R(T.var(sg, sign='+')) if sg is not None else 1
+            ass += [av * sv >= lo, av * sv <= hi]
+        goal = ((x == 0) | (x >= F32_TINY) | (x <= -F32_TINY)) & (x <= F32_MAX) & (x >= -F32_MAX)
+        ob = C.prove(f'{tag}: float32-materialised value {str(x)[:70]} is zero or a normal float32 over the unit grid', goal, assumptions=ass, timeout_ms=timeout_ms)
+        obs.append(ob)
+        if ob.status == 'violated':
+            units = {}
+            for nm in need_sig:
+                mv = (ob.model or {}).get(nm)
+                for un, uv in UNIT_GRID[sigmas[nm]].items():
+                    if mv is not None and abs(Fraction(mv) - uv) <= uv / 1000:
+                        units[nm] = un
+            bad.append((str(x)[:100], units))
+    return obs, bad, notes
